@@ -185,10 +185,12 @@ class DebugInfo:
 
                 # and anything between the end of the last child
                 # statement and the end of the block is part of the
-                # "end statement" of the block.
-                last_child = children[-1]
+                # "end statement" of the block. (the child that starts
+                # last may be nested inside one that ends later, like
+                # the last clause of a CASE statement)
+                last_child_end = max(r.end_offset for r in children)
                 add_node_record(block.end_stmt,
-                                last_child.end_offset,
+                                last_child_end,
                                 end_offset)
             else:
                 # there should have been an empty block marker inside.
